@@ -344,6 +344,10 @@ func (c *Ctx) keysOfSummary(fn *ssa.Function) (string, bool) {
 			}
 		}
 	}
+	// a slice made and filled here with the range keys of recv.F (and sorted, possibly): no cache in between
+	if f, ok := c.localKeysOf(fn, rets); ok {
+		return f, true
+	}
 	for _, r := range rets {
 		if len(r.Results) != 1 {
 			return "", false
@@ -391,6 +395,89 @@ func (c *Ctx) keysOfSummary(fn *ssa.Function) (string, bool) {
 		return "", false
 	}
 	return mapField, true
+}
+
+// localKeysOf: every way out of fn returns one and the same slice made in fn (make / append), and everything stored into
+// it is the range key of a loop over recv.F. Returns F.
+func (c *Ctx) localKeysOf(fn *ssa.Function, rets []core.Ret) (string, bool) {
+	recv := fn.Params[0].Name()
+	var made *ssa.MakeSlice
+	for _, r := range rets {
+		if len(r.Results) != 1 {
+			return "", false
+		}
+		ms, ok := core.RetVal(r, 0).(*ssa.MakeSlice)
+		if !ok || (made != nil && made != ms) {
+			return "", false
+		}
+		made = ms
+	}
+	if made == nil || made.Referrers() == nil {
+		return "", false
+	}
+	field, stores := "", 0
+	for _, ref := range *made.Referrers() {
+		switch x := ref.(type) {
+		case *ssa.IndexAddr:
+			if x.Referrers() == nil {
+				return "", false
+			}
+			for _, r2 := range *x.Referrers() {
+				st, isStore := r2.(*ssa.Store)
+				if !isStore || st.Addr != ssa.Value(x) {
+					return "", false // the element's address goes elsewhere
+				}
+				e, ok := st.Val.(*ssa.Extract)
+				if !ok || e.Index != 1 {
+					return "", false
+				}
+				nx, ok := e.Tuple.(*ssa.Next)
+				if !ok {
+					return "", false
+				}
+				rg, ok := nx.Iter.(*ssa.Range)
+				if !ok {
+					return "", false
+				}
+				p := c.M.ValPath(rg.X)
+				if !strings.HasPrefix(p, recv+".") || strings.ContainsAny(p[len(recv)+1:], ".[*") {
+					return "", false
+				}
+				if field != "" && field != p[len(recv)+1:] {
+					return "", false
+				}
+				field = p[len(recv)+1:]
+				stores++
+			}
+		case *ssa.Return, *ssa.DebugRef:
+		case *ssa.Call:
+			// sorting (or measuring) the slice does not change what it holds
+			n := core.StaticCalleeName(&x.Call)
+			if _, isBuiltin := x.Call.Value.(*ssa.Builtin); !isBuiltin && !strings.HasPrefix(n, "sort.") && !strings.HasPrefix(n, "slices.Sort") {
+				return "", false
+			}
+		case *ssa.Phi, *ssa.Store, *ssa.MakeInterface, *ssa.Slice:
+			return "", false
+		}
+	}
+	if stores == 0 || field == "" {
+		return "", false
+	}
+	// as long as the map: no element is left at the zero value, which need not be a key (that the index advances with
+	// every key is not examined), or empty and filled by append
+	lenOK := false
+	if k, isConst := core.ConstInt(made.Len); isConst && k == 0 {
+		lenOK = false // filled through IndexAddr stores, so it cannot have length 0
+	}
+	if lc, isCall := made.Len.(*ssa.Call); isCall {
+		if bi, isBuiltin := lc.Call.Value.(*ssa.Builtin); isBuiltin && bi.Name() == "len" && c.M.ValPath(lc.Call.Args[0]) == recv+"."+field {
+			lenOK = true
+		}
+	}
+	if !lenOK {
+		return "", false
+	}
+	return field, true
 }
 
 func fieldName(t types.Type, idx int) string {
@@ -526,11 +613,11 @@ func (c *Ctx) outputLookupDominatesAccept() bool {
 	}
 	ei := core.ErrorResultIndex(f.Signature)
 	for _, r := range core.ReturnsOf(f) {
-		if c.M.ProvablyNonNilError(core.RetVal(r, ei), r.Block()) {
+		if c.M.RetNonNil(r, ei) {
 			continue
 		}
 		found := false
-		for _, cond := range core.CondsAt(r.Block()) {
+		for _, cond := range r.Conds() {
 			// a verdict helper of the same receiver returned nil, and every nil return of that helper is dominated by
 			// the successful lookup of the parameter that received the output ID
 			if x, neq, isNil := core.NilCmp(cond.V); isNil && neq != cond.True {
@@ -652,12 +739,12 @@ func (c *Ctx) lookupDominatesNilReturns(h *ssa.Function, idx ssa.Value) bool {
 	ei := core.ErrorResultIndex(h.Signature)
 	n := 0
 	for _, r := range core.ReturnsOf(h) {
-		if c.M.ProvablyNonNilError(core.RetVal(r, ei), r.Block()) {
+		if c.M.RetNonNil(r, ei) {
 			continue
 		}
 		n++
 		found := false
-		for _, cond := range core.CondsAt(r.Block()) {
+		for _, cond := range r.Conds() {
 			if !cond.True {
 				continue
 			}
